@@ -216,7 +216,10 @@ class Interp:
         if k == "agg":
             ops = [self.operand(fr, o) for o in rv.get("ops", [])]
             names = rv.get("fnames") or [str(i) for i in range(len(ops))]
-            return Enum(rv.get("adt") or "(agg)", rv.get("variant"), dict(zip(names, ops)))
+            e = Enum(rv.get("adt") or "(agg)", rv.get("variant"), dict(zip(names, ops)))
+            if rv.get("closure"):
+                e.fields["__closure"] = rv["closure"]
+            return e
         if k == "binop":
             a, b = self.operand(fr, rv["a"]), self.operand(fr, rv["b"])
             if isinstance(a, (bool, int)) and isinstance(b, (bool, int)) and not isinstance(a, Unk):
@@ -482,6 +485,30 @@ class Interp:
             raise Undecided("constant_arithmetic_produces_nan on constants")
         if "::{closure#" in cal and self.facts.has(cal):
             return self.call_body(cal, a)
+        mo = re.search(r"std::option::Option::<T>::(and_then|map|is_some_and|is_none_or|filter|or_else|unwrap_or_else|map_or|map_or_else)(::<.*>)?$", cal)
+        if mo:
+            v = self.deref(a[0])
+            op = mo.group(1)
+            if isinstance(v, Enum) and v.adt == "std::option::Option":
+                if v.variant == "None":
+                    if op in ("and_then", "map", "filter"):
+                        return NONE
+                    if op == "is_some_and":
+                        return False
+                    if op == "is_none_or":
+                        return True
+                    if op == "map_or" and len(a) >= 2:
+                        return a[1]
+                else:
+                    cl = a[-1]
+                    cname = cl.fields.get("__closure") if isinstance(cl, Enum) else None
+                    if cname and self.facts.has(cname):
+                        r = self.call_body(cname, [Ref(cl), Enum("(tuple)", None, {"0": v.fields.get("0", UNK)})])
+                        if op == "map":
+                            return Enum("std::option::Option", "Some", {"0": r})
+                        if op in ("and_then", "is_some_and", "is_none_or", "map_or"):
+                            return r
+            return UNK
         m = re.search(r"std::option::Option::<.*>::(is_none|is_some|expect|unwrap|unwrap_or_default)$", cal.replace("<T>", "<.>")) or \
             re.search(r"std::option::Option::<T>::(is_none|is_some|expect|unwrap)$", cal)
         if m:
